@@ -14,9 +14,14 @@ META = dict(
           "catchable kinds are script values, eval_error and std::exception-derived exceptions, a non-std C++ type is not [catchable_kinds]. Deciding part: "
           "generated nests of try / typed and untyped catch / finally across defs and lambdas, throwing ints, bools, strings, arithmetic errors, lookup "
           "errors, and C++ exceptions of five kinds from callbacks at a random invocation; outcome class and payload leaving eval, printed trace and callback "
-          "log on the real engine must equal (a) the Lean model and (b) an independent Python interpreter that uses Python's own try/except/finally."),
-    note=("Trusted: Lean kernel, Model/Chai (hand model), gen/pyref.py (independent oracle), harness/evalprog.cpp. Methods, bound functions, library callbacks "
-          "(for_each/map), user C++ exception types and exception_specification unboxing are not covered yet (planned, DESIGN §6 C10)."),
+          "log on the real engine must equal (a) the Lean model and (b) an independent Python interpreter that uses Python's own try/except/finally. Regenerated "
+          "from the source on every run (extract/e_catches.py -> Gen/Catches.lean, every catch clause of the dispatch kit, evaluator, engine and optimizer): a handler "
+          "whose type can be a user's exception (`...`, std::exception and subclasses, eval_error, Boxed_Value) either rethrows or is one of the pinned, commented "
+          "sites of Model/Chai/Catches.lean [no_new_absorbing_handlers]. Outside the model: conversion-dispatch pairs — the same script with a call argument in the "
+          "parameter's own type and in another arithmetic type, under every injected exception kind, inside typed catch ladders / finally / nested calls / for_each — "
+          "must deliver the same outcome."),
+    note=("Trusted: Lean kernel, Model/Chai (hand model), gen/pyref.py (independent oracle), harness/evalprog.cpp, extract/e_catches.py (a syntactic census: caught "
+          "type and whether the handler body contains `throw;` / another throw). Methods, bound functions, user C++ exception types and exception_specification unboxing are not covered yet (planned, DESIGN §6 C10)."),
     design_ref="DESIGN.md §6 C10")
 
 KINDS = ["runtime", "range", "std", "nonstd", "eval", "boxed"]
